@@ -15,7 +15,7 @@ func init() {
 		}}
 	PropConfigs["C06"] = &PropConfig{ID: "C06", Modules: []Module{rtModule}, Specs: []string{"common.smt2"}, Post: func(ck *Checker, rep *Report, opts *Options) { c06MapBounded(ck, rep, opts); c06KeyKinds(ck, rep, opts) },
 		Undecided: []string{
-			"the finite-map refinement of mapassign/mapaccess/mapdelete/mapclear/evacuate/mapiternext beyond the stated bounds (bounded stand-ins only: uint64 keys under adversarial hash functions; struct/string/float/interface keys through the real typehash and equality functions; no indirect keys/elems, no NaN keys)",
+			"the finite-map refinement of mapassign/mapaccess/mapdelete/mapclear/evacuate/mapiternext beyond the stated bounds (bounded stand-ins only: uint64 keys under adversarial hash functions; struct/string/float/interface keys through the real typehash and equality functions; NaN float keys only in the iteration-during-growth scenario; no indirect keys/elems)",
 			"typehash/structequal/arrayequal recursion over type descriptors beyond the key types of the bounded run; mapclone/keys/values; reflect entry points",
 		}}
 	PropConfigs["C07"] = &PropConfig{ID: "C07", Modules: []Module{rtModule}, Specs: []string{"common.smt2"},
@@ -24,7 +24,7 @@ func init() {
 				return
 			}
 			runBounded(rep, opts, "c07", map[string]string{"ssa/abi/zz_verif_names_test.go": "harness/c07_names_test.go"}, []string{"./ssa/abi/"}, "TestZZVerifTypeNames",
-				[]string{"VERIF_C07=1"}, 1, "descriptor-name-iff-identical", "a fixed family of 79 types (3081 pairs) varying every attribute of Go type identity, incl. function-local types of equal name in different functions and block scopes, local aliases and generic instantiations taken from type-checked source")
+				[]string{"VERIF_C07=1"}, 1, "descriptor-name-iff-identical", "a fixed family of 111 types (6105 pairs) varying every attribute of Go type identity, incl. function-local types of equal name in different functions and block scopes, local aliases and generic instantiations taken from type-checked source, and every attribute once more inside a type argument of a generic instance (embedded vs named field, tags, field names and order, variadic, channel direction, array length, method names; directly and below slice, map, pointer, function)")
 			// same question asked of the whole naming pipeline: Go type -> raw type (Program.Type) -> descriptor name
 			runBounded(rep, opts, "c07p", map[string]string{"ssa/zz_verif_pipeline_names_test.go": "harness/c07_pipeline_test.go"}, []string{"./ssa/"}, "TestZZVerifPipelineTypeNames",
 				[]string{"VERIF_C07=1"}, 1, "descriptor-name-iff-identical", "a fixed family of 78 types (3003 pairs): the 56 above plus signatures whose parameters/results need the raw conversion (function-typed and named-function-typed parameters, variadic vs slice, nested in slice/pointer/map/chan/struct/interface)",
